@@ -248,6 +248,7 @@ type c16Op struct {
 	err       error
 	sub       string
 	ttl       time.Duration
+	role      string
 	t0, t1    int64 // wall clock seconds around the operation
 }
 
@@ -475,6 +476,42 @@ func c16Sim(r *simcore.Run) {
 	faultCounts := map[string]int{} // touched by the writer task only, read after the join
 	nSign, nJWKS := 2, 1
 	ops := make([][]c16Op, nSign+nJWKS)
+	// rule-level variants of the first finalizer: a rule may override the claims, the ttl or both; what it does not
+	// override is the catalogue's
+	type variant struct {
+		f    *jwtFinalizer
+		ttl  time.Duration
+		role string // expected custom claim "role" ("" = not judged)
+		how  string
+	}
+	variantFor := make([]variant, nSign)
+	for t := 0; t < nSign; t++ {
+		v := variant{f: jf, ttl: ttl, how: "prototype"}
+		over := map[string]any{}
+		switch s.Draw(5, "rule-level-override") {
+		case 1:
+			over["claims"], v.role, v.how = `{"role": "override"}`, "override", "claims"
+		case 2:
+			v.ttl = []time.Duration{7 * time.Second, 90 * time.Second}[s.Draw(2, "override-ttl")]
+			over["ttl"], v.how = v.ttl.String(), "ttl"
+		case 3:
+			v.ttl = []time.Duration{7 * time.Second, 90 * time.Second}[s.Draw(2, "override-ttl")]
+			over["claims"], over["ttl"], v.role, v.how = `{"role": "override"}`, v.ttl.String(), "override", "claims+ttl"
+		}
+		if len(over) > 0 {
+			vf, err := jf.WithConfig(over)
+			if err != nil {
+				r.Fail("infra", "with-config", "%v", err)
+				return
+			}
+			v.f = vf.(*jwtFinalizer)
+		} else if claimsTpl == `{"role": "user"}` {
+			v.role = "user"
+		}
+		variantFor[t] = v
+		r.Logf("signer-%d uses %s (ttl %s)", t, v.how, v.ttl)
+		r.Count("variant:"+v.how, 1)
+	}
 	for t := 0; t < nSign; t++ {
 		t := t
 		n := 2 + s.Draw(3, "n-sign")
@@ -483,12 +520,13 @@ func c16Sim(r *simcore.Run) {
 			for i := 0; i < n; i++ {
 				simsync.Yield("before-execute")
 				hc := &c16Ctx{ctx: cache.WithContext(context.Background(), cch), headers: http.Header{}, outputs: map[string]any{}}
-				op := c16Op{kind: "sign", task: t, sub: subj, ttl: ttl, t0: time.Now().Unix()}
+				op := c16Op{kind: "sign", task: t, sub: subj, ttl: variantFor[t].ttl, role: variantFor[t].role, t0: time.Now().Unix()}
 				op.call = sch.Stamp()
-				f := jf
+				f := variantFor[t].f
 				if t == 1 && jf2 != nil {
 					f = jf2
 					op.kind = "sign2"
+					op.ttl, op.role = ttl, ""
 				}
 				op.err = f.Execute(hc, &subject.Subject{ID: subj, Attributes: map[string]any{}})
 				op.ret = sch.Stamp()
@@ -667,6 +705,8 @@ func c16Sim(r *simcore.Run) {
 					r.Fail("system-claim-overridden", "jti", "jti=%q", jti)
 				case fresh && (int64(iat) < op.t0-2 || int64(iat) > op.t1+2):
 					r.Fail("system-claim-wrong", "iat", "iat is not the issue time")
+				case op.role != "" && claims["role"] != op.role:
+					r.Fail("custom-claims-of-another-variant", "role", "role=%v, the rule's effective claims template yields %q", claims["role"], op.role)
 				}
 				if r.Failed() {
 					return
